@@ -41,6 +41,8 @@ type HarnessCfg struct {
 	ExpectPanic bool              `json:"expect_panic"`
 	AssertMs    int               `json:"assert_ms"`
 	Guarded     []string          `json:"guarded"`
+	UnwindCut   map[string]int    `json:"unwind_cut"` // loops in these functions are cut after K symbolic iterations (the rest is outside the claim)
+	NoEnd       bool              `json:"no_end"` // the harness ends blocked by design; "end" is not required
 	Real        []string          `json:"real"` // models disabled for this harness (the real SSA body is executed)
 }
 
@@ -261,6 +263,7 @@ func (e *Engine) runPath(h *HarnessCfg, fn *ssa.Function, prefix []int, pool *Po
 
 var debugEngine bool
 var progress bool
+var startPrefix []int
 
 func (e *Engine) runHarness(h *HarnessCfg, workers int) *HarnessResult {
 	start := time.Now()
@@ -277,6 +280,9 @@ func (e *Engine) runHarness(h *HarnessCfg, workers int) *HarnessResult {
 	var mu sync.Mutex
 	cond := sync.NewCond(&mu)
 	work := [][]int{nil}
+	if startPrefix != nil {
+		work = [][]int{startPrefix}
+	}
 	active := 0
 	stop := false
 	var wg sync.WaitGroup
@@ -303,9 +309,13 @@ func (e *Engine) runHarness(h *HarnessCfg, workers int) *HarnessResult {
 				mu.Unlock()
 
 				t0 := time.Now()
+				if progress {
+					fmt.Printf("  start %v\n", pfx)
+				}
 				res := e.runPath(h, fn, pfx, pool)
 				if progress {
-					fmt.Printf("  path prefix=%d end=%s %s steps=%d forks=%d viol=%d %.1fs\n", len(pfx), res.End, res.Msg, res.Steps, len(res.Forks), len(res.Violations), time.Since(t0).Seconds())
+					fmt.Printf("  path %v prefix=%d end=%s %s steps=%d forks=%d viol=%d %.1fs\n", pfx, len(pfx), res.End, res.Msg, res.Steps, len(res.Forks), len(res.Violations), time.Since(t0).Seconds())
+					_ = pfx
 				}
 
 				mu.Lock()
@@ -355,7 +365,7 @@ func (e *Engine) runHarness(h *HarnessCfg, workers int) *HarnessResult {
 	// classify
 	for k, n := range hr.Ends {
 		switch k {
-		case "done", "infeasible", "panic", "blocked", "exit":
+		case "done", "infeasible", "panic", "blocked", "exit", "cut":
 		default:
 			hr.Inconcl = append(hr.Inconcl, fmt.Sprintf("%d path(s) ended with %s", n, k))
 		}
@@ -369,7 +379,11 @@ func (e *Engine) runHarness(h *HarnessCfg, workers int) *HarnessResult {
 	if nUnkAssert > 0 {
 		hr.Inconcl = append(hr.Inconcl, fmt.Sprintf("%d assertion query(ies) unknown", nUnkAssert))
 	}
-	for _, r := range append([]string{"end"}, h.Reach...) {
+	req := append([]string{}, h.Reach...)
+	if !h.NoEnd {
+		req = append(req, "end")
+	}
+	for _, r := range req {
 		if _, ok := hr.Reached[r]; !ok {
 			hr.Inconcl = append(hr.Inconcl, "vacuity: label "+r+" not reached")
 		}
